@@ -75,10 +75,12 @@ def compound(g, maxsize=15):
 
 
 def name_args(t):
-    e = expand(t)
-    if e[0] == "cmp":
-        return A(e[1]), e[2]
-    return e, []
+    """name and arguments as generator terms (arithmetic-made numbers stay 'calc' leaves: a rational has no literal syntax)"""
+    if t[0] == "str":
+        t = terms.mkstring(t[1])
+    if t[0] == "cmp":
+        return A(t[1]), t[2]
+    return t, []
 
 
 def gen_calls(ctx):
@@ -312,7 +314,7 @@ def run(ctx):
         if per_key[key] > 4 or len(failures) >= 40:
             continue
         cc, vs = coq_call(c)
-        spec = core.coq_eval_show(ctx.prop, IMPORTS, "run_call %s" % cc)[:1500] if len(failures) < 10 else "(see run_call in C23/Model.v)"
+        spec = core.coq_eval_show(ctx.prop, IMPORTS, "run_call %s" % cc)[:1500] if len(failures) < 4 else "(see run_call in C23/Model.v)"
         failures.append({"key": key, "what": "%s differs from the term model (paths: %s)" % (PRED[c["kind"]][0], ",".join(paths)),
                          "input": "%s%s.   %% variables %s" % (pre, goal, ",".join(c["vs"])), "impl": o[1], "spec": spec, "property_fails": True})
     if per_key:
